@@ -195,9 +195,11 @@ fn ipc_stream_regions(b: &[u8]) -> Vec<Region> {
 fn ipc_file_regions(b: &[u8]) -> Vec<Region> {
     let n = b.len();
     let mut c = Claims::new(n);
-    c.claim(0, 8, "magic", 0);
+    // the header (magic + padding to the writer's alignment) ends where the first continuation marker is
+    let start = (8..n.saturating_sub(4)).step_by(8).find(|p| b[*p..*p + 4] == [0xFF; 4]).unwrap_or(8);
+    c.claim(0, start, "magic", 0);
     let mut g = 0;
-    let end = ipc_messages(b, 8, &mut c, &mut g);
+    let end = ipc_messages(b, start, &mut c, &mut g);
     g += 1;
     let flen = u32le(b, n - 10);
     let flo = n - 10 - flen;
@@ -678,10 +680,8 @@ pub fn all(seed: u64, thorough: bool) -> Vec<BaseFile> {
     if let Some(msgs) = flight_encode(&nst) {
         out.push(base("flight", "nested", flight_bytes(&msgs), Extra::None, true));
     }
-    if thorough {
-        if let Some(msgs) = flight_encode(&p) {
-            out.push(base("flight", "prims", flight_bytes(&msgs), Extra::None, false));
-        }
+    if let Some(msgs) = flight_encode(&p) {
+        out.push(base("flight", "prims", flight_bytes(&msgs), Extra::None, false));
     }
 
     // ---- Parquet
